@@ -12,15 +12,29 @@ PROP = dict(
          "pattern and out-of-range enums/integers, incl. messages obtained from proto.Unmarshal of mutated wire bytes; "
          "(re-entrancy) conc.run records: 4-32 goroutines x 2-4 passes over 26 shared inputs through the four converters and the "
          "streaming reader (with the JSON state hop), every result compared with the sequential one; in the thorough tier the "
-         "same in a child process built with go build -race; every record counts as non-trivial; distinct = distinct record text",
+         "same in a child process built with go build -race; every record counts as non-trivial; distinct = distinct record text. "
+         "DebugRWPhelpers stays false during conc.run; the conc.debug child is single-goroutine and switches it on once (under "
+         "DebugRWPhelpersMU) between a sequential pass with the dump off and the passes with the dump on; no generator toggles the "
+         "flag while converters run",
     trusted_base=["encoding/json, proto.Unmarshal results enter as printed by the harness",
                   "race detector (supporting evidence for the schedules that ran)"],
     assumptions=["unknown protobuf fields are discarded on Unmarshal",
-                 "the Go memory model and races inside regexp / encoding/json / proto are outside the model (partial)"],
+                 "the Go memory model and races inside regexp / encoding/json / proto are outside the model (partial)",
+                 "DebugRWPhelpers is constant while converters run. The library never assigns it; the four converters read it "
+                 "without the mutex (`if DebugRWPhelpers {` at converterFunctions.go:633, 946, 1479, 1763); DebugRWPhelpersMU is "
+                 "locked only inside those branches (634-658, 947-970, 1480-1504, 1764-1789), where it serialises the debug dumps "
+                 "of concurrent calls - it does not guard the flag. Throw-away experiment (go build -race -tags verif; 8 goroutines "
+                 "x 300 passes through the four converters and the reader + one goroutine looping DebugRWPhelpersMU.Lock(); "
+                 "DebugRWPhelpers = ...; DebugRWPhelpersMU.Unlock()): the race detector reports DATA RACE between the toggler's write "
+                 "and the reads at all four sites (633, 946, 1479, 1763), exit 66 with halt_on_error=1; without the toggler no report. "
+                 "Toggling the flag is not a converter call, hence outside C06's statement",
+                 "shared-state tables are syntactic (go/ast over rawpanellib, gorwp, ibeam_lib_monogfx, topology; not the protoc-generated "
+                 "ibeam_rawpanel, not rawpanel-lib-c / gorwp/examples which are package main): state reached through reflection, cgo, "
+                 "linkname or the dependencies (ibeam-lib-utils, protobuf, regexp, encoding/json) is not seen"],
 )
 
 CLAIM = dict(
-    text="Totality is proved for all inputs on models that carry Go's panics explicitly (encIn_total, decIn_total, decIn_no_nil_message, encOut_total, decOut_total, decOut_no_nil_message; the streaming reader is a total function over the total batch decoder in the C05 model), with decide-counterexamples for the three pinned defects. Re-entrancy: the modelled functions are pure, so all interleavings equal the sequential result by construction; the transfer to the Go code rests on no_shared_mutable_state — a theorem over the list of assignments to package-level variables regenerated from /repo on every run — plus a concurrent-vs-sequential differential run (race-instrumented in the thorough tier). Partial: the Go memory model and data races inside regexp/json/proto are outside the model.",
+    text="Totality is proved for all inputs on models that carry Go's panics explicitly (encIn_total, decIn_total, decIn_no_nil_message, encOut_total, decOut_total, decOut_no_nil_message; the streaming reader has its own panic-carrying model Stream.parseE - sub-matches indexed in Except Panic, hand-over to the panic-carrying batch decoder - with parse_total / parse_session_total: any reader state, any input, any length, no panic, no nil message; batch_models_agree / parse_models_agree prove that these panic-carrying models return, on every input, exactly the messages of the C05 models Batch.decode / Stream.parse, so C02's soundness, C05's safety and C06's totality are about one function; loops_are_bounded: every for statement of converterFunctions.go and of the reader, regenerated from the source, is a range loop or a counted loop whose counter and bound the body does not assign, no goto / go / select / channel operation / recursion), with decide-counterexamples for the three pinned defects. Re-entrancy: the modelled functions are pure, so all interleavings equal the sequential result by construction; the transfer to the Go code rests on no_shared_mutable_state and package_vars_known — theorems over tables regenerated from /repo on every run for the four library packages (rawpanellib, gorwp, ibeam_lib_monogfx, topology): no write to a package-level variable (directly or through index/field/dereference); every other non-read use of one (method call, call argument, address, alias, copy/append destination, range) is on an explicit allow-list written in Lean (read-only regexp methods MatchString/FindStringSubmatch, Lock/Unlock of the debug-dump mutex, font tables stored in MonoImg.font, icon tables passed to MonoImg.DrawBitmap, and those two sinks are followed and only read); every package-level variable of a reference or aggregate type is one of the known tables/regexps/mutex, so a new package-level cache fails the build — plus a concurrent-vs-sequential differential run (race-instrumented in the thorough tier). The debug flag DebugRWPhelpers is read by the converters without its mutex (converterFunctions.go:633, 946, 1479, 1763; the mutex only serialises the dumps); the claim assumes the flag is constant while converters run — a caller toggling it under the mutex concurrently with converter calls is reported as a data race by the race detector at all four sites (throw-away experiment), which is outside the statement because a toggle is not a converter call. Partial: the Go memory model and data races inside regexp/json/proto are outside the model.",
     note=TB + "Schedules: only those the runtime took are observed; the claim for all interleavings is the purity argument.",
-    technique="Lean 4 proof (panic-carrying models, induction over lines/messages; decide over the regenerated shared-state table) + model/implementation correspondence + concurrent differential run",
+    technique="Lean 4 proof (panic-carrying models, induction over lines/messages; decide over the regenerated shared-state tables against a hand-written allow-list) + model/implementation correspondence + concurrent differential run",
 )
